@@ -211,19 +211,21 @@ Inductive sha_prep :=
 | SCPanic                                   (* decode_sha256(..).unwrap() panics *)
 | SCCompare (salt : bytes) (r : N) (d : bytes).
 
-(* false: the tree under check calls sha_crypt::sha256_check on any {crypt}$5$ string.
-   true : /verif/fixes/C30.patch is applied (verify_ctx first requires the last '$'-field to be
-          43 hash64 characters with a canonical last one, and answers Ok(false) otherwise). *)
-Definition tree_fixed : bool := false.
+(* true : the tree under check contains /repo a666989 (= /verif/fixes/C30.patch): verify_ctx first
+          requires the last '$'-field of a {crypt}$5$ string to be 43 hash64 characters with a
+          canonical last one, and answers Ok(false) otherwise.
+   false: the originally pinned tree, which called sha_crypt::sha256_check on any {crypt}$5$
+          string and PANICKED on an undecodable hash field (kept as sha_check_gen false). *)
+Definition tree_fixed : bool := true.
 
 Definition sha256_field_ok (hv : bytes) : bool :=
   let f := last (split_on 36 hv) [] in
   Nat.eqb (length f) 43 && is_h64 f &&
   match h64_val (last f 0) with Some v => v <? 16 | None => false end.
 
-Definition sha_prepare (is512 : bool) (hv : bytes) : sha_prep :=
+Definition sha_prepare_gen (fixed is512 : bool) (hv : bytes) : sha_prep :=
   let buflen := if is512 then 86%nat else 43%nat in
-  if tree_fixed && negb is512 && negb (sha256_field_ok hv) then SCReject else
+  if fixed && negb is512 && negb (sha256_field_ok hv) then SCReject else
   match split_on 36 hv with
   | [] :: id :: next :: rest =>
       if negb (beqb id (if is512 then [54] else [53])) then SCReject else
@@ -248,17 +250,21 @@ Definition sha_prepare (is512 : bool) (hv : bytes) : sha_prep :=
   | _ => SCReject
   end.
 
-Definition sha_check (is512 : bool) (pw hv : bytes) : vres :=
+Definition sha_prepare : bool -> bytes -> sha_prep := sha_prepare_gen tree_fixed.
+
+Definition sha_check_gen (fixed is512 : bool) (pw hv : bytes) : vres :=
   let H := if is512 then sha512 else sha256 in
   let map_ := if is512 then MAP_SHA512 else MAP_SHA256 in
   let dlen := if is512 then 64%nat else 32%nat in
-  match sha_prepare is512 hv with
+  match sha_prepare_gen fixed is512 hv with
   | SCReject => VOk false
   | SCPanic => VPanic
   | SCCompare salt r d =>
       let out := shacrypt_raw H pw salt (N.to_nat r) in
       VOk (beqb (map (fun t => nth t out 0) map_) (firstn dlen (d ++ repeat 0 dlen)))
   end.
+
+Definition sha_check : bool -> bytes -> bytes -> vres := sha_check_gen tree_fixed.
 
 (* the Argon2id primitive (argon2 crate: Params::new + hash_password_into) is an oracle:
    m t p version salt cleartext key_len -> Some key | None (the crate reported an error) *)
@@ -524,30 +530,15 @@ Definition pcheck (c : case) : bool :=
   | None => forallb (fun a => outcome_ok (snd a)) (catt c)
   end.
 
-(* KNOWN-FINDING classes (decided from the input only):
+(* KNOWN-FINDING class (decided from the input only):
    long-cleartext : a candidate longer than PW_MAX_LENGTH_CHECK = 512 bytes that the independent
-                    implementation accepts (verify_ctx refuses such candidates by design);
-   sha256-crypt-panic : a {crypt}$5$ string whose structure and rounds are valid but whose hash
-                    field is not decodable hash64 of at most 43 bytes (sha-crypt's decode_sha256
-                    unwraps the decode error). *)
-Definition sha256_hash_field_bad (hv : bytes) : bool :=
-  match sha_prepare false hv with
-  | SCPanic => true
-  | _ => false
-  end.
+                    implementation accepts (verify_ctx refuses such candidates by design).
+   (The class sha256-crypt-panic of the originally pinned tree is gone with /repo a666989.) *)
 Definition known (c : case) : bool :=
   let argon := oracle_of (coracle c) in
   match cgen c with
   | Some (g, pw0) =>
       existsb (fun a => if PW_MAX_LENGTH_CHECK <? blen (fst a)
                         then indep_accepts argon g pw0 (fst a) else false) (catt c)
-  | None =>
-      match cstored c with
-      | SStr s => match parse s with
-                  | POk (KCryptSha256 hv) => sha256_hash_field_bad hv
-                  | _ => false
-                  end
-      | SDb (KCryptSha256 hv) => sha256_hash_field_bad hv
-      | SDb _ => false
-      end
+  | None => false
   end.
